@@ -14,6 +14,8 @@ CONSTANTS
   DHosts <- DHostsAll
   Fams <- Fams4
   PathSet <- PathsK
+  PathExts <- PathExtsK
+  RespExts <- RespExts1
   Pls <- PlsK
   ReqAuths <- ReqAuthsK3
   RespMuts <- RespMutsK
